@@ -568,3 +568,166 @@ def run(ctx, report, rules):
         fn = fns.get("sami" if key.startswith("sami") else "dfxp")
         report.check(not bad[key], rule, fn, f"markup writers on {n} small caption sets: {TEXTS_BY_KEY[key]}",
                      {"caption_sets": n, "mismatches": bad[key][:2]}, clause)
+
+
+# ----------------------------------------------------------------------------- span markup on every flat node sequence
+def _flat_sequences(max_len):
+    """node sequences of the flat-span grammar ( text | break | start text* end )* up to max_len nodes; a start carries
+    italics, or a style that produces no markup of its own"""
+    out = []
+
+    def grow(seq, open_kind):
+        if len(seq) <= max_len and open_kind is None and seq:
+            out.append(list(seq))
+        if len(seq) >= max_len:
+            return
+        if open_kind is None:
+            for item in ("T", "B", "S+", "S0"):
+                grow(seq + [item], item if item.startswith("S") else None)
+        else:
+            grow(seq + ["T"], open_kind)
+            grow(seq + ["B"], open_kind)
+            grow(seq + ["E" + open_kind[1]], None)
+    grow([], None)
+    return out
+
+
+def _nested_sequences():
+    """balanced style nodes that NEST (depth two): the writers flatten them; only well-formedness is asked"""
+    c = {"+": {"italics": True}, "c": {"color": "red"}, "0": {}}
+    out = []
+    for a, b in (("+", "c"), ("c", "+"), ("+", "+"), ("0", "+"), ("+", "0")):
+        out.append(["T", ("S", a), "T", ("S", b), "T", ("E", b), "T", ("E", a), "T"])
+        out.append([("S", a), ("S", b), "T", ("E", b), ("E", a)])
+        out.append([("S", a), "T", ("S", b), "T", ("E", b), ("E", a), "B", "T"])
+    return out, c
+
+
+def span_sequences(ctx, report, rule="R-SPAN-TYPESTATE", clause="2", which=("DFXPWriter", "LegacyDFXPWriter", "SAMIWriter")):
+    """the markup writers' `write` folded on a one-caption set for EVERY flat style-node sequence up to 4 (5 thorough)
+    nodes: the markup written for the caption is balanced and properly nested (the document / paragraph parses), and the
+    characters inside an italic span are exactly the italic ones"""
+    max_len = 5 if ctx.tier == "thorough" else 4
+    res = ctx.memo(("span_sequences", max_len), lambda: _span_explore(ctx, max_len))
+    for wname in which:
+        fn, bad, n = res[wname]
+        report.covered(fn)
+        report.check(not bad, rule, fn, "span tags are balanced, properly nested and cover exactly the italic characters, for every "
+                     f"flat style-node sequence up to {max_len} nodes", {"sequences": n, "mismatches": bad[:3]}, clause)
+
+
+def _span_explore(ctx, max_len):
+    W = World(ctx)
+    seqs = _flat_sequences(max_len)
+    sites = {"DFXPWriter": ("pycaption/dfxp/base.py", "DFXPWriter"), "LegacyDFXPWriter": ("pycaption/dfxp/extras.py", "LegacyDFXPWriter"),
+             "SAMIWriter": ("pycaption/sami.py", "SAMIWriter")}
+    out = {}
+    for wname, (path, cname) in sites.items():
+        bad = []
+        n = 0
+        fn = None
+        for seq in seqs:
+            n += 1
+            items, want_it, k = [], "", 0
+            on = False
+            for it in seq:
+                if it == "T":
+                    k += 1
+                    items.append(f"w{k}")
+                    if on:
+                        want_it += f"w{k}"
+                elif it == "B":
+                    items.append(None)
+                elif it in ("S+", "S0"):
+                    items.append(("s", True, {"italics": True} if it == "S+" else {}))
+                    on = it == "S+"
+                else:
+                    items.append(("s", False, {"italics": True} if it == "E+" else {}))
+                    on = False
+            nodes = []
+            for it in items:
+                if it is None:
+                    nodes.append(W.ev("CaptionNode.create_break()"))
+                elif isinstance(it, tuple):
+                    nodes.append(W.ev("CaptionNode.create_style(s, c)", s=it[1], c=dict(it[2])))
+                else:
+                    nodes.append(W.ev("CaptionNode.create_text(t)", t=it))
+            cs = W.ev("CaptionSet({'en-US': CaptionList([Caption(1000000, 2000000, n)])})", n=nodes)
+            try:
+                fn, doc, _ = W.write(path, cname, cs)
+            except FoldRaise as e:
+                bad.append({"nodes": seq, "raises": f"{e.exc_name}: {e}"[:100]})
+                continue
+            except AnalysisError as e:
+                raise AnalysisError(f"{cname}.write cannot be folded on the node sequence {seq}: {e}")
+            if wname == "SAMIWriter":
+                m = re.search(r"<p [^>]*>(.*?)</p>", doc, re.S)
+                frag = m.group(1) if m else ""
+                depth, ok, ital, on_ = 0, True, "", []
+                for m2 in re.finditer(r"<(/?)span([^>]*)>|([^<]+)|<[^>]+>", frag):
+                    if m2.group(3) is not None:
+                        if any(on_):
+                            ital += m2.group(3)
+                    elif m2.group(0).startswith("<span") or m2.group(0).startswith("</span"):
+                        if m2.group(1):
+                            depth -= 1
+                            if depth < 0:
+                                ok = False
+                                break
+                            on_.pop()
+                        else:
+                            depth += 1
+                            on_.append("italic" in m2.group(2))
+                ok = ok and depth == 0
+                got_it = re.sub(r"\s+", "", html.unescape(ital)) if ok else None
+                shown = frag
+            else:
+                parsed, err = read_dfxp(doc)
+                ok = parsed is not None and len(parsed["langs"]) == 1 and len(parsed["langs"][0][2]) == 1
+                got_it = parsed["langs"][0][2][0]["italic"] if ok else None
+                shown = (re.search(r"<p [^>]*>(.*?)</p>", doc, re.S) or [None, doc[-200:]])[1]
+            if not ok:
+                bad.append({"nodes": seq, "markup": shown[:160], "why": "the span tags are not balanced / properly nested"})
+            elif got_it != want_it:
+                bad.append({"nodes": seq, "markup": shown[:160], "italic_characters": got_it, "required": want_it})
+        # nested balanced spans: the document must still be well-formed
+        nested, content = _nested_sequences()
+        if wname == "SAMIWriter":
+            nested = []         # nesting is outside C11's domain (flat spans); C07, which admits it, is about the DFXP writers
+        for seq in nested:
+            n += 1
+            nodes, k = [], 0
+            for it in seq:
+                if it == "T":
+                    k += 1
+                    nodes.append(W.ev("CaptionNode.create_text(t)", t=f"w{k}"))
+                elif it == "B":
+                    nodes.append(W.ev("CaptionNode.create_break()"))
+                else:
+                    nodes.append(W.ev("CaptionNode.create_style(s, c)", s=it[0] == "S", c=dict(content[it[1]])))
+            cs = W.ev("CaptionSet({'en-US': CaptionList([Caption(1000000, 2000000, n)])})", n=nodes)
+            try:
+                fn, doc, _ = W.write(path, cname, cs)
+            except FoldRaise as e:
+                bad.append({"nodes": [str(x) for x in seq], "raises": f"{e.exc_name}: {e}"[:100]})
+                continue
+            except AnalysisError as e:
+                raise AnalysisError(f"{cname}.write cannot be folded on nested style nodes: {e}")
+            if wname == "SAMIWriter":
+                m = re.search(r"<p [^>]*>(.*?)</p>", doc, re.S)
+                frag = m.group(1) if m else ""
+                depth = 0
+                for m2 in re.finditer(r"<(/?)span", frag):
+                    depth += -1 if m2.group(1) else 1
+                    if depth < 0:
+                        break
+                ok, shown = depth == 0, frag
+            else:
+                parsed, err = read_dfxp(doc)
+                ok = parsed is not None
+                shown = (re.search(r"<p [^>]*>(.*?)</p>", doc, re.S) or [None, doc[-200:]])[1]
+            if not ok:
+                bad.append({"nodes": [str(x) for x in seq], "markup": shown[:200],
+                            "why": "nested (balanced) style nodes: the span tags written are not balanced"})
+        out[wname] = (fn, bad, n)
+    return out
